@@ -136,6 +136,19 @@ func wpath(v ssa.Value, d int) string {
 				}
 			}
 		}
+		// any pure pointer getter (one block returning a field of the receiver) reads the same field at the
+		// next call as long as nobody assigns it in between — the same assumption the field paths make
+		if curStateNil != nil && curStateNil.Pure(x) {
+			if rv := callRecv(x.Common()); rv != nil {
+				name := ""
+				if x.Call.IsInvoke() {
+					name = x.Call.Method.Name()
+				} else if f := x.Call.StaticCallee(); f != nil {
+					name = f.Name()
+				}
+				return wpath(rv, d+1) + "." + name + "()"
+			}
+		}
 		return fmt.Sprintf("c:%p", x)
 	case *ssa.MakeInterface:
 		return wpath(x.X, d+1)
@@ -518,6 +531,11 @@ func (w *WireNil) maybeNil(v ssa.Value) bool {
 	}
 	if c, ok := v.(*ssa.Call); ok && w.sn != nil {
 		if _, nilable := w.sn.Nilable(c); nilable {
+			return true
+		}
+	}
+	if w.sn != nil {
+		if _, derived := w.sn.DerivedNil(v); derived {
 			return true
 		}
 	}
